@@ -5,6 +5,9 @@ schedule, the tuple of per-call outcomes (and of the follow-up calls made afterw
 produces.  Schedules: every single pre-emption "A runs k events, the others run to completion, A resumes" at (quick)
 the first and last occurrence of every distinct library / generated-code line A executes plus a stride, (thorough) every
 line event; seeded double pre-emptions and multi-thread plans; opcode-granular pre-emption for the short calls.
+Generated scenario families (FAMILIES) add schedule kinds of their own: `tables` (two pre-emptions at accesses of a shared
+class_helper table), `helper-opcode` (every bytecode of the short helper modules), `setup-lines` (every line of class_helper.py),
+`module-lines` (inside the import of a lazily loaded optional module, started from a process that has not imported it).
 Correspondence: the Lean interleaving model, run with the discipline flags the translator reads off the source, has a
 failing single-pre-emption schedule iff the implementation has one for the scenario anchored at that site.
 """
@@ -13,6 +16,7 @@ from __future__ import annotations
 import itertools
 import json
 import os
+import time
 
 from harness import common as C
 from harness import sched
@@ -507,6 +511,13 @@ def run(ctx: C.Ctx):
                 'of one class) × schedules: every single pre-emption at line events of library and generated code (quick: first/last '
                 'occurrence of each distinct line + stride), seeded double pre-emptions, 3..4-thread plans, opcode-granular for the short '
                 'calls; each schedule in its own forked process; outcome tuples (and follow-up calls) must be those of a sequential order. '
+                'Generated families (shapes from the case RNG): first dump vs first load of an auto_assign_tags class under two '
+                'pre-emptions placed at accesses of one shared per-class table (accessing lines read off the source with ast); '
+                'unrelated classes meeting new key spellings after a warm-up, pre-empted at every bytecode of the helper modules '
+                '(string_conv / type_conv / object_path) with later sequential calls in the outcome; v1 classes with Alias / AliasPath / '
+                'Annotated aliases, pre-empted at every line of the per-class set-up code; lazily imported optional modules '
+                '(pytimeparse, tomli_w, yaml) first needed by two threads in a process that has not imported them, pre-empted inside '
+                'the import (a thread blocking on the import lock is set aside by the scheduler). '
                 'Non-trivial = a schedule that actually pre-empted a thread inside the library.')
     ctx.assumptions += ['pre-emption points are line events (opcode events for the short scenarios) of library files and generated code: '
                         'a race whose window lies inside a single C-level call is not exhibited',
@@ -613,7 +624,9 @@ def run(ctx: C.Ctx):
             if ctx.only is not None and i != ctx.only:
                 continue
             todo.append((i, kind, plan, opcode))
+        t_scn = time.time()
         outs = sched.fork_map(_job, [(scn, plan, opcode, False) for (_i, _k, plan, opcode) in todo])
+        ctx.notes.setdefault('seconds_per_scenario', {})[scn['name']] = [len(todo), round(time.time() - t_scn, 1)]
         any_fail = False
         for (i, kind, plan, opcode), r in zip(todo, outs):
             ctx.current = i
